@@ -176,7 +176,7 @@ META = {
         "technique": "Coq stage theorems (structural induction over selection and permission trees) + differential correspondence + independent spec filter as oracle",
     },
     "C05": {
-        "text": "Theorems C05_named_root / C05_named_lookup (every recorded step failure names its service; invariant over the execution skeleton for all plans, worlds, fault assignments). Tie + oracles: every faulty run is paired with the fault-free run of the same request: the faulty data must be the fault-free data with subtrees replaced by null, a difference must be accompanied by an error, every service-failure error must carry the service identity, and when every request to a service fails hard the data must equal the reference executor with that service's fields raising errors. C05_every_downstream_error_names_its_service lifts the per-step theorems to the whole gateway model.",
+        "text": "Theorems C05_named_root / C05_named_lookup (every recorded step failure names its service; invariant over the execution skeleton for all plans, worlds, fault assignments). Tie + oracles: every faulty run is paired with the fault-free run of the same request: the faulty data must be the fault-free data with subtrees replaced by null, a difference must be accompanied by an error, every service-failure error must carry the service identity, and when every request to a service fails hard the data must equal the reference executor with that service's fields raising errors. C05_every_downstream_error_names_its_service lifts the per-step theorems to the whole gateway model. Merge theorems (Proofs/MergeConfine.v): C05_one_result_writes_only_its_keys (a lookup result merged into any tree at any insertion point changes it only under the response keys its items carry) and C05_lost_lookups_only_remove_their_fields_partial (an execution in which some lookup results are missing merges successfully whenever the fault-free one does, and its merged data differs only under the keys the lost results carry; independence hypothesis of C06; before null propagation and shaping).",
         "note": "Containment of the nulled positions to fields owned by the failing service is decided through the whole-service oracle and the model correspondence, not by a separate theorem yet.",
         "technique": "Coq invariant proof + paired fault-free/faulty differential runs + reference executor with failing owners",
     },
